@@ -92,9 +92,12 @@ def refinement_case(c, quick, tol=None):
     proj = "neutrino" if c["proc"] == "CC" else "electron"
     vals = {}
     for label, grid, deg in setups:
+        # the medium grid is handed over as a coarse grid with the refining nodes appended (valid: eko sorts the nodes); the prediction is
+        # formed, as a user would, with the grid the output records
+        card_grid = (grid[::2] + grid[1::2]) if label == "medium" else grid
         out = runs.run(cards.theory_card(PTO=c["pto"], PTODIS=c["pto"], TMC=c.get("tmc", 0), MP=0.938, FactScaleVar=bool(c.get("fact"))),
-                       cards.obs_card({name: [dict(x=x, Q2=c["Q2"]) for x in xs]}, prDIS=c["proc"], ProjectileDIS=proj, xgrid=grid, degree=deg, is_log=True))
-        vals[label] = [[contract(r, grid, k) for k in keys] for r in out[name]]
+                       cards.obs_card({name: [dict(x=x, Q2=c["Q2"]) for x in xs]}, prDIS=c["proc"], ProjectileDIS=proj, xgrid=card_grid, degree=deg, is_log=True))
+        vals[label] = [[contract(r, [float(g) for g in out["xgrid"]["grid"]], k) for k in keys] for r in out[name]]
     probs = []
     for i, x in enumerate(xs):
         for o in range(len(keys)):
